@@ -676,6 +676,10 @@ fn run_c02(cmds: &[Cmd], want: Option<&str>) -> Run {
     let mut kinds: Vec<&'static str> = vec![];
     let mut cursor: usize = 0;
     let mut sigs_seen: BTreeSet<String> = BTreeSet::new();
+    // `-lang`: a language switch happened earlier in this history (recorded texts are re-parsed in the
+    // language active at replay time: finding F03c); kept in the signature so that the known language
+    // effect does not cover a replay defect of the same op kind in histories without a switch
+    let mut lang = "";
     macro_rules! fail {
         ($idx:expr, $sig:expr, $detail:expr) => {{
             let sig: String = $sig;
@@ -695,6 +699,9 @@ fn run_c02(cmds: &[Cmd], want: Option<&str>) -> Run {
                 continue;
             }
             Cmd::Op(op) => {
+                if matches!(op, Op::SetLanguage { lang: l } if l != "en") {
+                    lang = "-lang";
+                }
                 let kind = op.kind();
                 let d0 = m.verif_history_len();
                 let res = apply(&mut m, op);
@@ -736,7 +743,7 @@ fn run_c02(cmds: &[Cmd], want: Option<&str>) -> Run {
                     let s = snap_en(&mut m, false);
                     if s != timeline[cursor] {
                         let d = snapshot_diff(&timeline[cursor], &s);
-                        fail!(idx, format!("c02:undo:{}:{}", kinds[cursor], first_class(&d)), format!("position {cursor}: recorded vs after undo: {}", diff_text(&d)));
+                        fail!(idx, format!("c02:undo:{}{lang}:{}", kinds[cursor], first_class(&d)), format!("position {cursor}: recorded vs after undo: {}", diff_text(&d)));
                         // the leftover of a wrong undo persists at every earlier position: the timeline is
                         // no longer a valid spec for the rest of this history
                         out.tags.push("c02:aborted:after-mismatch".into());
@@ -760,7 +767,7 @@ fn run_c02(cmds: &[Cmd], want: Option<&str>) -> Run {
                     let s = snap_en(&mut m, false);
                     if s != timeline[cursor] {
                         let d = snapshot_diff(&timeline[cursor], &s);
-                        fail!(idx, format!("c02:redo:{}:{}", kinds[cursor - 1], first_class(&d)), format!("position {cursor}: recorded vs after redo: {}", diff_text(&d)));
+                        fail!(idx, format!("c02:redo:{}{lang}:{}", kinds[cursor - 1], first_class(&d)), format!("position {cursor}: recorded vs after redo: {}", diff_text(&d)));
                         out.tags.push("c02:aborted:after-mismatch".into());
                         break;
                     }
@@ -922,11 +929,20 @@ fn lockstep(cmds: &[Cmd]) -> Lock {
     };
     let mut ks = KindStacks::default();
     let mut tags = vec![];
+    let mut lang = "";
     for cmd in cmds {
         if matches!(cmd, Cmd::Flush) {
             continue;
         }
+        if matches!(cmd, Cmd::Op(Op::SetLanguage { lang: l }) if l != "en") {
+            lang = "-lang";
+        }
+        let n_tags = tags.len();
         let label = run_cmd_primary(&mut p, cmd, &mut ks, &mut tags);
+        // discriminating circumstances: the command itself returned Err on the primary (a failed call that
+        // nevertheless changed the primary: C04 family) / a language switch happened earlier (F03c)
+        let failed = tags.len() > n_tags && tags[tags.len() - 1].ends_with(":err");
+        let label = format!("{label}{}{lang}", if failed { "-failed" } else { "" });
         let q = p.flush_send_queue();
         if let Err(e) = catch(|| r.apply_external_diffs(&q)) {
             return Lock::ApplyErr(label, e);
